@@ -31,6 +31,13 @@ class Location:
         self.end_col = end_col
         self.filename = filename
 
+    def __eq__(self, other):
+        # No dataclass fields are declared (the attributes are set in __init__), so the
+        # generated comparison would call any two locations equal
+        if not isinstance(other, Location):
+            return NotImplemented
+        return self.to_json() == other.to_json()
+
     def __str__(self):
         return f"<Location({self.line}, {self.col}, {self.filename!r})>"
 
